@@ -63,6 +63,14 @@ pub enum Init {
     /// peer DISCONNECT whose handler closes the sink itself (close() / close_with_reason) before acking
     PeerDiscAppCloses,
     PeerDiscAppClosesWith,
+    /// server: the CONNECT carried a Session Expiry Interval of 60 s, so a DISCONNECT that sets
+    /// another non-zero interval is perfectly valid
+    PeerDiscExpiryOk,
+    /// the same, and the CONNACK carried the server's own Session Expiry Interval 0 (which does
+    /// not change what the client may send)
+    PeerDiscExpiryOkOverride,
+    /// close() and, without letting anything else run, further sends
+    CloseThenSend,
 }
 
 impl Init {
@@ -70,14 +78,14 @@ impl Init {
         matches!(self, Init::V(_) | Init::HandlerErr | Init::ProtoErr | Init::PeerDiscExpiry)
     }
     fn app_supplies_packet(self) -> bool {
-        matches!(self, Init::Close | Init::CloseReason | Init::ProtoDisc | Init::ProtoDiscWith | Init::PeerDiscAppCloses | Init::PeerDiscAppClosesWith)
+        matches!(self, Init::Close | Init::CloseThenSend | Init::CloseReason | Init::ProtoDisc | Init::ProtoDiscWith | Init::PeerDiscAppCloses | Init::PeerDiscAppClosesWith)
     }
 }
 
 pub fn alphabet(role: Role) -> Vec<Init> {
-    let mut v = vec![Init::Close, Init::CloseReason, Init::CloseNoReason, Init::ForceClose, Init::HandlerErr, Init::PeerDisc, Init::PeerDiscExpiry, Init::PeerDiscAppCloses, Init::PeerDiscAppClosesWith, Init::V(Viol::UnexpectedAck)];
+    let mut v = vec![Init::Close, Init::CloseReason, Init::CloseNoReason, Init::ForceClose, Init::HandlerErr, Init::PeerDisc, Init::PeerDiscExpiry, Init::PeerDiscAppCloses, Init::PeerDiscAppClosesWith, Init::V(Viol::UnexpectedAck), Init::CloseThenSend];
     if role.is_server() {
-        v.extend([Init::ProtoDisc, Init::ProtoDiscWith, Init::ProtoErr]);
+        v.extend([Init::ProtoDisc, Init::ProtoDiscWith, Init::ProtoErr, Init::PeerDiscExpiryOk, Init::PeerDiscExpiryOkOverride]);
         for k in [Viol::TooLarge, Viol::RecvMax, Viol::Qos, Viol::Retain, Viol::SubId, Viol::AliasUnknown, Viol::AliasExceeds, Viol::BadFilter, Viol::Malformed] {
             v.push(Init::V(k));
         }
@@ -123,6 +131,13 @@ pub async fn run_case(case: &Case) -> Outc {
     cfg.max_receive = 2;
     cfg.max_topic_alias = 4;
     cfg.session_expiry = 0;
+    let expiry_ok = case.seq.iter().any(|i| matches!(i, Init::PeerDiscExpiryOk | Init::PeerDiscExpiryOkOverride));
+    if expiry_ok {
+        cfg.session_expiry = 60;
+        if case.seq.contains(&Init::PeerDiscExpiryOkOverride) {
+            cfg.hs.session_expiry = Some(0);
+        }
+    }
     if role.is_server() {
         cfg.max_size = 120;
         cfg.hs.retain_available = Some(false);
@@ -154,6 +169,13 @@ pub async fn run_case(case: &Case) -> Outc {
         app.log(Ev::Note(format!("INIT {i} {init:?}")));
         match *init {
             Init::Close => sink.close(),
+            Init::CloseThenSend => {
+                sink.close();
+                let _ = sink.send_qos0(&PubSpec::new("after/close", vec![2]));
+                let mut op = Op::new(&app, next_op_id(), "after-close-q1", sink.send_qos1(&PubSpec::new("after/close1", vec![3])));
+                op.start();
+                ops.push(op);
+            }
             Init::CloseReason => sink.close_with_reason(0x8B),
             Init::CloseNoReason => sink.close_with_no_reason(),
             Init::ForceClose => sink.force_close(),
@@ -180,7 +202,7 @@ pub async fn run_case(case: &Case) -> Outc {
                 app.proto_plans.borrow_mut().push_back(ProtoPlan { gated: false, answer: ProtoAnswer::CloseSinkThenAck((*init == Init::PeerDiscAppClosesWith).then_some(0x8B)) });
                 c.peer.send(&R::Disconnect { code: Some(0), props: None });
             }
-            Init::PeerDiscExpiry => {
+            Init::PeerDiscExpiry | Init::PeerDiscExpiryOk | Init::PeerDiscExpiryOkOverride => {
                 c.peer.send(&R::Disconnect { code: Some(0), props: Some(vec![Prop::U32(0x11, 30)]) });
             }
             Init::V(k) => match k {
@@ -269,7 +291,8 @@ pub async fn run_case(case: &Case) -> Outc {
     }
     // O3: decidable when the peer's DISCONNECT arrived at a quiescent endpoint and was delivered
     for (i, init) in case.seq.iter().enumerate() {
-        if !matches!(init, Init::PeerDisc | Init::PeerDiscAppCloses | Init::PeerDiscAppClosesWith) {
+        let valid_expiry = expiry_ok && matches!(init, Init::PeerDiscExpiry | Init::PeerDiscExpiryOk | Init::PeerDiscExpiryOkOverride);
+        if !matches!(init, Init::PeerDisc | Init::PeerDiscAppCloses | Init::PeerDiscAppClosesWith) && !valid_expiry {
             continue;
         }
         let settled_before = i == 0 || case.settle & (1 << (i - 1)) != 0;
@@ -284,6 +307,15 @@ pub async fn run_case(case: &Case) -> Outc {
             o.o3_decided = true;
             if let Some(d) = discs.iter().find(|d| d.1 > r) {
                 o.violations.push(("DISCONNECT written after the peer's DISCONNECT had been received".into(), format!("code 0x{:02x} — {what}", d.2)));
+            }
+        } else if i == 0 {
+            // the very first thing that happens on a healthy, quiescent connection is a valid
+            // DISCONNECT from the peer: whether or not the application got to see it, whatever
+            // DISCONNECT the endpoint writes now comes after it
+            let sent = log[start].0;
+            if let Some(d) = discs.iter().find(|d| d.1 > sent) {
+                o.o3_decided = true;
+                o.violations.push(("DISCONNECT written in answer to a valid DISCONNECT of the peer".into(), format!("code 0x{:02x} — {what}", d.2)));
             }
         }
         break;
@@ -301,8 +333,9 @@ pub async fn run_case(case: &Case) -> Outc {
     let first_settled = case.seq.len() == 1 || case.settle & 1 != 0;
     o.first_settled = first_settled;
     // with a slow control service the application may legitimately get in first with its own close
-    let app_acts_later = case.seq[1..].iter().any(|i| matches!(i, Init::Close | Init::CloseReason | Init::CloseNoReason | Init::ForceClose));
-    if first.is_error() && first_settled && case.ctl == ControlAnswer::None && !(case.ctl_gated && app_acts_later) {
+    let app_acts_later = case.seq[1..].iter().any(|i| matches!(i, Init::Close | Init::CloseThenSend | Init::CloseReason | Init::CloseNoReason | Init::ForceClose));
+    let first_is_error = first.is_error() && !(expiry_ok && first == Init::PeerDiscExpiry);
+    if first_is_error && first_settled && case.ctl == ControlAnswer::None && !(case.ctl_gated && app_acts_later) {
         o.code_checked = true;
         match discs.first() {
             // "it carries exactly that code" presupposes a DISCONNECT for the causes with a dedicated
